@@ -26,7 +26,7 @@ func (g *verifTypeGen) name(s string) string {
 	return s + string(rune('a'+g.n%26)) + string(rune('a'+(g.n/26)%26))
 }
 
-var verifTags = []string{"", `json:"x"`, "a`b", "line\nbreak", `q"uote`}
+var verifTags = []string{"", `json:"x"`, "a`b", "line\nbreak", `q"uote`, "cr\rtag", "crlf\r\n", "tab\there", `back\slash`, "nul\x00", "`", "é☃"}
 
 func (g *verifTypeGen) gen(depth int) types.Type {
 	if depth == 0 {
